@@ -174,8 +174,9 @@ def run_check(modname, tier, seed, jobs=None):
     coverage.update({k: v for k, v in extra.items()})
     evidence = dict(property_id=prop, tier=tier, seed=seed, level="model_checking", coverage=coverage,
                     assumptions=list(mod.ASSUMPTIONS), wall_s=round(wall, 2), violations=len(new))
-    os.makedirs(os.path.join(VERIF, "evidence"), exist_ok=True)
-    with open(os.path.join(VERIF, "evidence", f"{prop}.json"), "w") as f:
+    evdir = os.environ.get("VERIF_EVIDENCE_DIR") or os.path.join(VERIF, "evidence")  # mutant runs write elsewhere
+    os.makedirs(evdir, exist_ok=True)
+    with open(os.path.join(evdir, f"{prop}.json"), "w") as f:
         json.dump(evidence, f, indent=1, default=str)
         f.write("\n")
     print(f"{prop} {tier}: scenarios={done}/{len(work)} executions={agg['executions']} states={agg['states']} "
